@@ -42,7 +42,9 @@ type c19Env struct {
 
 func newC19Env(t *testing.T, transactional bool) *c19Env {
 	hub := newRecHub()
-	tc := mustBoot(t, coreOpts{transactional: transactional, cacheOff: true,
+	// revocation retries back off from 40ms instead of 10s, so that a revocation that failed during a generated
+	// storage outage is retried within the wait of a case
+	tc := mustBoot(t, coreOpts{transactional: transactional, cacheOff: true, retryBase: 40 * time.Millisecond,
 		logical: map[string]logical.Factory{"recbe": hub.factory("recbe", logical.TypeLogical)}})
 	hub.physSeq = tc.rec.Seq
 	tc.mount("rb", "recbe", nil)
@@ -159,10 +161,31 @@ func TestVerif_C19_UseLimit(t *testing.T) {
 		for i := range tasks {
 			tasks[i] = &c19Task{kind: rapid.SampledFrom(c19Kinds).Draw(rt, fmt.Sprintf("kind%d", i))}
 		}
-		tok, acc, r := tc.createToken(tc.root, map[string]any{"policies": []string{"c19"}, "ttl": "1h", "num_uses": n})
+		// who the use-limited token is: a token with a policy and a lifetime, or a token root made for itself without
+		// naming policies (a root token), with or without a lifetime
+		shape := []string{"policy", "policy", "policy", "root-no-ttl", "root-ttl"}[fairIndex(rt, "tokenShape", 5)]
+		rootShape := shape != "policy"
+		createArgs := map[string]any{"policies": []string{"c19"}, "ttl": "1h", "num_uses": n}
+		switch shape {
+		case "root-no-ttl":
+			createArgs = map[string]any{"num_uses": n}
+		case "root-ttl":
+			createArgs = map[string]any{"num_uses": n, "ttl": "1h"}
+		}
+		// a storage outage while the exhausted token is being revoked: the first 1..3 reads/writes of the records of the
+		// secrets leased under it fail, then storage works again (sequential mode, the token holds a lease, the last use
+		// is a plain read)
+		outage := 0
+		if sequential && n >= 2 && fairIndex(rt, "outageDuringRevocation", 4) == 0 {
+			outage = rapid.IntRange(1, 3).Draw(rt, "outageOps")
+			tasks[0].kind = "creds"
+			tasks[n-1].kind = "echo"
+		}
+		tok, acc, r := tc.createToken(tc.root, createArgs)
 		if tok == "" {
 			t.Fatalf("harness: cannot create use-limited token: %v", r)
 		}
+		rec.Class("token-shape:"+shape, 1)
 		accBefore := env.accessors()
 		callsBefore := len(hub.handlerCalls())
 		sched := verifx.NewSched(tc.rec)
@@ -175,13 +198,31 @@ func TestVerif_C19_UseLimit(t *testing.T) {
 		switches := 0
 		var trace []string
 		restartAt := -1
-		if sequential && fairIndex(rt, "restartBetweenUses", 3) == 0 {
+		if sequential && outage == 0 && fairIndex(rt, "restartBetweenUses", 3) == 0 {
 			// the server is restarted between two uses: the uses already spent must stay spent
 			restartAt = rapid.IntRange(0, m-2).Draw(rt, "restartAfterRequest")
 		}
 		if sequential {
 			tc.rec.Gate = nil
 			for i, tk := range tasks {
+				if outage > 0 && i == n-1 {
+					var mu sync.Mutex
+					left := outage
+					tc.rec.SetFault(func(o *verifx.Op) error {
+						if !strings.HasPrefix(o.Key, "sys/expire/id/rb/creds/") || (o.Kind != "get" && o.Kind != "put" && o.Kind != "delete") {
+							return nil
+						}
+						mu.Lock()
+						defer mu.Unlock()
+						if left == 0 {
+							return nil
+						}
+						left--
+						return fmt.Errorf("verif: storage outage")
+					})
+					defer tc.rec.SetFault(nil)
+					rec.Class("outage-during-revocation", 1)
+				}
 				tk.res = env.request(tk.kind, i, tok)
 				tk.ok = tk.res.ok()
 				if i == restartAt {
@@ -241,7 +282,7 @@ func TestVerif_C19_UseLimit(t *testing.T) {
 			if len(tr) > 80 {
 				tr = tr[:80]
 			}
-			return map[string]any{"n": n, "m": m, "sequential": sequential, "restart_after_request": restartAt, "tasks": ks, "schedule": tr, "transactional": tc.opts.transactional}
+			return map[string]any{"n": n, "m": m, "token": shape, "outage_ops_during_revocation": outage, "sequential": sequential, "restart_after_request": restartAt, "tasks": ks, "schedule": tr, "transactional": tc.opts.transactional}
 		}
 		// requests that were authorised: reached a recbe handler, or returned success from the token store
 		reached := 0
@@ -280,7 +321,7 @@ func TestVerif_C19_UseLimit(t *testing.T) {
 		if sequential && gone == 0 {
 			// the first n requests consume the uses; exactly those among them that the policy allows succeed
 			for i, tk := range tasks {
-				want := i < n && tk.kind != "denied" && !strings.HasPrefix(tk.kind, "child")
+				want := i < n && (tk.kind != "denied" || rootShape) && !strings.HasPrefix(tk.kind, "child")
 				if tk.kind == "creds" && i == n-1 {
 					// final use: the leased secret must not be returned
 					if tk.res.resp != nil && tk.res.resp.Secret != nil && tk.res.resp.Secret.LeaseID != "" {
@@ -349,7 +390,19 @@ func TestVerif_C19_UseLimit(t *testing.T) {
 				te, lerr := tc.c.tokenStore.lookupInternal(tc.ctx, tok, false, true)
 				if lerr == nil && te != nil && tc.c.expiration.jobManager.GetPendingJobCount() == 0 {
 					le, ferr := tc.c.expiration.FetchLeaseTimesByToken(tc.ctx, te)
-					if ferr == nil && le != nil && le.ExpireTime.After(time.Now().Add(5*time.Minute)) {
+					scheduled := false
+					if ferr == nil && le != nil {
+						// a lease with a timer (first attempt or retry) is in the pending map; one that is parked as
+						// non-expiring, or not tracked at all, will never be looked at again
+						_, scheduled = tc.c.expiration.pending.Load(le.LeaseID)
+					}
+					switch {
+					case ferr != nil:
+					case le == nil:
+						rec.Violation(rt, "exhausted-token-never-revoked", describe(), "all %d uses of the token are spent (it is refused), but 10s later its entry is still stored while the lease that drives its revocation is gone and no revocation is queued; secrets still outstanding: %v", n, out)
+					case !scheduled:
+						rec.Violation(rt, "exhausted-token-never-revoked", describe(), "all %d uses of the token are spent (it is refused), but 10s later its entry is still stored, its lease (expiry %v) has no timer and no revocation is queued; secrets still outstanding: %v", n, le.ExpireTime.Format(time.RFC3339), out)
+					case le.ExpireTime.After(time.Now().Add(5 * time.Minute)):
 						rec.Violation(rt, "exhausted-token-never-revoked", describe(), "all %d uses of the token are spent (it is refused), but 10s later its entry is still stored, its lease expires only at %v, no revocation is queued, and the secrets %v leased under it are not revoked", n, le.ExpireTime.Format(time.RFC3339), out)
 					}
 				}
